@@ -78,7 +78,8 @@ Proof.
   rewrite EP.
   assert (Need : N.eqb (N.land mode write_mask) 0 = false) by (apply N.eqb_neq; exact Hw).
   rewrite Need. cbn [andb].
-  rewrite Dw. cbn [rev find].
+  assert (PC : pending_content st (fs w) f f = None) by (unfold pending_content; rewrite Dw; cbn [rev find]; destruct (str_eqb f f); reflexivity).
+  rewrite PC.
   (* read the target *)
   set (w1 := mkWorld (fs w) (umask w) (trace w ++ [OOpenRead f]) None (stdout_data w)).
   assert (Rd : perform (OOpenRead f) w = (Ok None, w1)).
